@@ -1,0 +1,14 @@
+//go:build verif
+
+package security
+
+// VerifRaw exposes the raw 32-bit word behind the NAS COUNT to the verification
+// harness (build tag verif only). It does not modify the counter.
+func (counter *Count) VerifRaw() uint32 {
+	return counter.count
+}
+
+// VerifSetRaw places the counter in an arbitrary raw state (build tag verif only).
+func (counter *Count) VerifSetRaw(v uint32) {
+	counter.count = v
+}
